@@ -72,7 +72,7 @@ def KState.inv (s : KState) : Bool :=
   s.openFds.all (fun fd => alHas fd s.wd) && s.wd.all (fun e => s.openFds.contains e.1) &&
   -- every entry is listed under its own name with its own descriptor
   s.wd.all (fun e => e.2.wd == e.1 && alLookup e.2.name s.path == some e.1) &&
-  -- WatchList shows only paths that are watched
-  s.byUser.all (fun p => alHas p s.path)
+  -- WatchList shows only paths that are watched (under their own name, or as the link name of an entry)
+  s.byUser.all (fun p => alHas p s.path || s.wd.any (fun e => e.2.linkName == p))
 
 end Kq
